@@ -1,6 +1,7 @@
 package el
 
 import (
+	"github.com/pkg/errors"
 	"regexp"
 	"strings"
 )
@@ -35,12 +36,19 @@ func (e *elHelper) content(elr string) string {
 	return elr[e.pre : len(elr)-e.suf]
 }
 
+// maxReplaceRounds bounds the replacements made for one text: a replacement that brings the placeholder back
+// (a configured value referring to itself) would otherwise be substituted forever.
+const maxReplaceRounds = 1000
+
 func (e *elHelper) ReplaceAllContent(s string, f func(content string) (string, error)) (string, error) {
 	var result = s
-	for true {
+	for round := 0; ; round++ {
 		elr := e.FindString(result)
 		if elr == "" {
 			break
+		}
+		if round >= maxReplaceRounds {
+			return "", errors.Errorf("more than %d replacements in '%s': circular reference", maxReplaceRounds, s)
 		}
 		r, err := f(e.content(elr))
 		if err != nil {
